@@ -453,6 +453,51 @@ def slow_session(layer, stall, length):
     return []
 
 
+def reconnect_session(how):
+    """One EBB3 object used for two sessions: connect, a few helpers, then disconnect() /
+    reboot() / bootload(), connect again (the operating system hands out a *new* port object),
+    the same helpers again.  In the second session every byte must go to the new port, the old
+    one must get nothing more, and the text must be what a fresh object would have sent."""
+    from ..ebb3drv import connect_env, probe_class      # pylint: disable=import-outside-toplevel
+    opened = []
+
+    def factory(_name):
+        port = FakePort(EBB3Board(future=False, nickname="Axi"))
+        opened.append(port)
+        return port
+
+    def session(obj):
+        for name, args in SESSION[:4]:
+            getattr(obj, name)(*args)
+
+    try:
+        with connect_env(factory):
+            fresh = probe_class()()
+            fresh.connect()
+            session(fresh)
+            reference = list(opened[0].write_attempts)
+            del opened[:]
+            obj = probe_class()()
+            first_ok = obj.connect()
+            session(obj)
+            getattr(obj, how)()
+            old_count = len(opened[0].write_attempts)
+            second_ok = obj.connect()
+            session(obj)
+    except Exception as exc:                # pylint: disable=broad-except
+        return [f"EBB3 object reused after {how}(): raised {type(exc).__name__}: {exc}"]
+    if len(opened) != 2:
+        return [f"EBB3 object reused after {how}(): {len(opened)} ports were opened, expected 2"]
+    late = opened[0].write_attempts[old_count:]
+    got = list(opened[1].write_attempts)
+    if first_ok is not True or second_ok is not True or obj.err is not None or late or \
+            got != reference:
+        return [f"EBB3 object reused after {how}(): second connect() = {second_ok!r}, err = "
+                f"{obj.err!r}; the old (closed) port was handed {late!r}; the new port got "
+                f"{got!r}, a fresh object's session is {reference!r}"]
+    return []
+
+
 def _case(layer, helper, args, motor_state=None):
     return {"kind": "text", "layer": layer, "helper": helper, "args": list(args),
             "motor_state": list(motor_state) if motor_state else None}
@@ -541,6 +586,11 @@ def run(ctx):
             for chunk in core.split(arg_list, 8):
                 jobs.append(("ebb3", helper, chunk))
     part.merge(core.fan_out(ctx, _chunk, jobs))
+    for how in ("disconnect", "reboot", "bootload"):
+        for msg in reconnect_session(how):
+            part.violation(f"reconnect:{how}", msg, {"kind": "reconnect", "how": how})
+        part.count("cases")
+        part.count("reconnect_sessions")
     for layer in ("legacy", "ebb3"):
         for stall in (1, 2, 3):
             for length in ((30, 70) + ((400,) if ctx.thorough else ())) if stall < 3 else (9,):
@@ -642,6 +692,8 @@ def replay(case):
     if kind == "gated_pair":
         from .c15 import check_gate_history     # pylint: disable=import-outside-toplevel
         return check_gate_history("same", case["first"], case["second"], case["version"])
+    if kind == "reconnect":
+        return reconnect_session(case["how"])
     if kind == "slow_session":
         return slow_session(case["layer"], case["stall"], case["length"])
     if kind == "table":
